@@ -161,6 +161,7 @@ pub fn gen_case(prop: &str, seed: u64) -> Case {
             p.w_insert_select = 2;
             p.w_select = 0;
             p.w_advance = 14;
+            p.w_reopen = 5;
             p.max_rows_per_insert = 12;
             if krng.chance(1, 3) {
                 knobs.rowset_size = *krng.pick(&[64usize, 128, 256]);
